@@ -35,7 +35,9 @@ class Built:
 
     def __init__(self, prog: list[dict], dtype=torch.float64, rng: random.Random | None = None,
                  shapes: list | None = None, scalars: tuple | list = (), real: list | None = None,
-                 other_dtype_leaves: tuple | list = ()):
+                 other_dtype_leaves: tuple | list = (), perturb: float = 0.0):
+        """``perturb``: added (times 1, 2, 3, ...) to the leaf values - with 2**-29 the values need more than 24
+        mantissa bits, so any internal round trip through float32 becomes visible at float64 accuracy."""
         """``scalars``: node ids (1-based) that must be 0-d tensors (losses of mtl_backward)."""
         rng = rng or random.Random(0)
         scalars = set(scalars)
@@ -54,7 +56,7 @@ class Built:
                 shape = tuple(shapes[idx]) if shapes else pick_shape(nd["size"], rng)
                 ldt = dtype if (idx + 1) not in set(other_dtype_leaves) else (
                     torch.float32 if dtype == torch.float64 else torch.float64)
-                x = torch.tensor([float(v) for v in nd["val"]], dtype=ldt).reshape(shape)
+                x = torch.tensor([float(v) + perturb * (1 + (j + idx) % 3) for j, v in enumerate(nd["val"])], dtype=ldt).reshape(shape)
                 x.requires_grad_(bool(nd["rg"]))
                 self.t.append(x)
                 self.shapes.append(shape)
